@@ -8,7 +8,7 @@
    encoding is not injective (C09_scalar_keys_needed). *)
 From JsonSyntax Require Import Base.Prelude Base.Value Base.Unicode Model.Compare Model.Canon
   Spec.Minimal Spec.EcmaNumber Spec.Jcs Spec.CanonSpec Proofs.CompareProofs Proofs.CanonProofs
-  Base.Float64 Proofs.Float64Proofs Proofs.NumberProofs Proofs.NearestDouble Proofs.CanonNumber Proofs.NumberExamples.
+  Base.Float64 Proofs.Float64Proofs Proofs.NumberProofs Proofs.NearestDouble Proofs.CanonNumber Proofs.NumberExamples Proofs.NumberTotal Proofs.NumberMinimal.
 From Coq Require Import ZArith Reals SpecFloat.
 From Flocq Require Import Core BinarySingleNaN.
 
@@ -108,6 +108,35 @@ Theorem C09_digits_minimal : forall m e n k s, nks m e = Some (n, k, s) ->
   cand_ok (S754_finite false m e) k' c = false.
 Proof. exact nks_minimal. Qed.
 
+(* the digit search always succeeds on a valid finite double (17 digits suffice): the RFC 8785
+   rendering of a number exists exactly when its nearest double is finite *)
+Theorem C09_rendering_total : forall x,
+  valid_binary 53 1024 x = true -> is_finite_SF x = true -> ecma_to_string x <> None.
+Proof. exact ecma_to_string_total. Qed.
+Theorem C09_renderable_iff_finite : forall n d, read_decimal n = Some d ->
+  ((exists t, canon_number n = Some t) <-> is_finite_SF (nearest_double d) = true).
+Proof. exact canon_number_some_iff. Qed.
+
+(* ECMA-262 Number::toString step 5 in full: (n, k, s) is a representation of the double
+   (k digits, s * 10^(n-k) rounds to it), k <= 17, NO representation has fewer digits
+   (whatever its exponent), and among the k-digit representations s * 10^(n-k) is closest to
+   the double, an even s being chosen on a tie (the residual alternative k = 1, s = 9, s' = 1 of
+   the tie clause is the one case not excluded) *)
+Open Scope Z_scope.
+Theorem C09_ecma_number_to_string : forall m e n k s,
+  valid_binary 53 1024 (S754_finite false m e) = true ->
+  nks m e = Some (n, k, s) ->
+  ecma_repr m e n k s /\ k <= 17 /\
+  (forall n' k' s', ecma_repr m e n' k' s' -> k <= k') /\
+  (forall n' s', ecma_repr m e n' k s' ->
+     (Rabs (IZR s * bpow radix10 (n - k) - dbl_R m e) <=
+      Rabs (IZR s' * bpow radix10 (n' - k) - dbl_R m e))%R /\
+     (Rabs (IZR s * bpow radix10 (n - k) - dbl_R m e) =
+      Rabs (IZR s' * bpow radix10 (n' - k) - dbl_R m e) ->
+      (s', n') = (s, n) \/ Z.even s = true \/ (k = 1 /\ s = 9 /\ s' = 1))).
+Proof. exact nks_ecma. Qed.
+Close Scope Z_scope.
+
 (* RFC 8785 Appendix B, rows checked inside Coq (all 26 are in Proofs/NumberExamples.v) *)
 Example C09_rfc8785_appendix_B :
   of_hex 0x0000000000000001 = txt "5e-324" /\
@@ -143,3 +172,6 @@ Print Assumptions C09_digits_round_trip.
 Print Assumptions C09_digits_minimal.
 Print Assumptions C09_rfc8785_appendix_B.
 Print Assumptions C09_former_defect_E2.
+Print Assumptions C09_rendering_total.
+Print Assumptions C09_renderable_iff_finite.
+Print Assumptions C09_ecma_number_to_string.
